@@ -170,6 +170,25 @@ where
     ) {
         let store = stores.get(store_id).unwrap();
         while let Ok(c) = commands_receiver.recv() {
+            #[cfg(similari_verif)]
+            let verif_site_end = match &c {
+                Commands::Drop(..) => "store_drop_end",
+                Commands::FindBaked(..) => "store_find_baked_end",
+                Commands::Distances(..) => "store_distances_end",
+                Commands::Lookup(..) => "store_lookup_end",
+                Commands::Merge(..) => "store_merge_end",
+            };
+            #[cfg(similari_verif)]
+            crate::verif_hooks::point(
+                match &c {
+                    Commands::Drop(..) => "store_drop_begin",
+                    Commands::FindBaked(..) => "store_find_baked_begin",
+                    Commands::Distances(..) => "store_distances_begin",
+                    Commands::Lookup(..) => "store_lookup_begin",
+                    Commands::Merge(..) => "store_merge_begin",
+                },
+                store_id as u64,
+            );
             match c {
                 Commands::Drop(channel) => {
                     let _r = channel.send(Results::Dropped);
@@ -300,6 +319,8 @@ where
                     }
                 }
             }
+            #[cfg(similari_verif)]
+            crate::verif_hooks::point(verif_site_end, store_id as u64);
         }
     }
 
@@ -481,6 +502,8 @@ where
             .filter_map(|track_id| self.get_store(*track_id as usize).get(track_id).cloned())
             .collect::<Vec<_>>();
 
+        #[cfg(similari_verif)]
+        crate::verif_hooks::point("owned_query_copied", tracks_vec.len() as u64);
         self.foreign_track_distances(tracks_vec, feature_class, only_baked)
     }
 
